@@ -991,10 +991,10 @@ def run(ctx):
     cover.start(COVER)
     tmpdir = tempfile.mkdtemp(prefix='vf-c07-')
     try:
-        run_data(ctx, am, tmpdir, ctx.pick(1008, 12096))
-        run_dumpfile(ctx, am, tmpdir, ctx.pick(448, 5376))
-        run_poscar(ctx, am, tmpdir, ctx.pick(432, 5184))
-        run_table(ctx, am, tmpdir, ctx.pick(96, 960))
+        run_data(ctx, am, tmpdir, ctx.pick(1008, 9072))
+        run_dumpfile(ctx, am, tmpdir, ctx.pick(448, 4032))
+        run_poscar(ctx, am, tmpdir, ctx.pick(432, 3888))
+        run_table(ctx, am, tmpdir, ctx.pick(96, 768))
     finally:
         shutil.rmtree(tmpdir, ignore_errors=True)
     for f in COVER:
